@@ -344,7 +344,9 @@ def run_c20(pid, tier, seed, args, ctx):
     try:
         ep = open(os.path.join(core.LEAN, "BGVGen", "EntryPoints.lean")).read()
         allcode = "\n".join(code for cells in groups.values() for (_, _, code) in cells)
-        internal = {"constEdgeIterator", "Edges", "getEndVertex", "hasReachedEnd", "operator*", "operator++", "operator()", "operator==", "operator!=", "VertexIterator"}
+        internal = {"constEdgeIterator", "Edges", "getEndVertex", "hasReachedEnd", "operator*", "operator++", "operator()", "operator==", "operator!=", "VertexIterator",
+                    # undocumented helpers of the free-function inventory (hashing, byte-level I/O primitives)
+                    "hashCombine", "hashPair", "_isSystemBigEndian", "readBinaryValue", "writeBinaryValue", "swapBytes", "verifyStreamOpened"}
         for (c, m_, _n) in _re.findall(r'\("([^"]+)", "([^"]+)", (\d+)\)', ep):
             if m_ in internal or c in internal or m_.startswith("operator"):
                 continue
